@@ -514,13 +514,11 @@ def rule_C15(ctx, rule="C15"):
     F = ctx.F
     M = F.const_scalar("repr::MAX_INLINE_SIZE")
     # bool constants
-    for nm, txt in (("TRUE", b"true"), ("FALSE", b"false")):
-        c = F.consts.get("repr::Repr::from_bool::" + nm)
-        want = (txt + b"\0" * (M - 1 - len(txt)) + bytes([0xC0 | len(txt)])).hex()
-        ctx.ob(rule, "repr::Repr::from_bool::" + nm, "bytes", c is not None and c.get("bytes") == want, how="inline encoding of \"%s\" (text, zero padding, tag 0xC0|%d)" % (txt.decode(), len(txt)), detail="from_bool::%s is %s" % (nm, c and c.get("bytes")))
+    enc = lambda txt: (txt + b"\0" * (M - 1 - len(txt)) + bytes([0xC0 | len(txt)])).hex()
     b = F.bodies.get("repr::Repr::from_bool")
     if b:
-        ok = False
+        # the constant returned on each edge, by its bytes (a named const or an inline `const { .. }`)
+        ok, got = False, {}
         for bb in range(b.n):
             t = b.term(bb)
             if t["k"] == "switch" and strip_refs(b.origin_operand(t["discr"])) == ("param", 1):
@@ -529,10 +527,14 @@ def rule_C15(ctx, rule="C15"):
                 def const_at(x):
                     for s in b.blocks[x]["stmts"]:
                         if s["k"] == "assign" and s["lhs"]["l"] == 0 and s["rv"]["k"] == "use" and "c" in s["rv"]["a"]:
-                            return s["rv"]["a"]["c"].get("named")
+                            c = s["rv"]["a"]["c"]
+                            return c.get("bytes") or (F.consts.get(c.get("named") or "", {}) or {}).get("bytes")
                     return None
-                ok = bool(f_t) and const_at(t_t) == "repr::Repr::from_bool::TRUE" and const_at(f_t[0]) == "repr::Repr::from_bool::FALSE"
-        ctx.ob(rule, b.path, "selects", ok, how="true -> TRUE, false -> FALSE", detail="from_bool does not select TRUE on the true edge / FALSE on the false edge")
+                got = {"true": const_at(t_t), "false": const_at(f_t[0]) if f_t else None}
+                ok = got["true"] == enc(b"true") and got["false"] == enc(b"false")
+        for nm, txt in (("TRUE", b"true"), ("FALSE", b"false")):
+            ctx.ob(rule, "repr::Repr::from_bool::" + nm, "bytes", got.get(txt.decode()) == enc(txt), how="inline encoding of \"%s\" (text, zero padding, tag 0xC0|%d)" % (txt.decode(), len(txt)), detail="from_bool(%s) is %s" % (txt.decode(), got.get(txt.decode())))
+        ctx.ob(rule, b.path, "selects", ok, how="true -> \"true\", false -> \"false\"", detail="from_bool does not return the encoding of \"true\" on the true edge / \"false\" on the false edge: %s" % got)
     b = F.bodies.get("repr::Repr::from_char")
     if b:
         ds = ret_defs(b)
@@ -676,6 +678,14 @@ def rule_operator_appends(ctx, rule="C11-ops"):
         calls = [callee_name(t) for _, _, t in inlined_calls(b) if t.get("local_key") or callee_name(t).startswith("LeanString::")]
         extra = sorted({c for c in calls if c not in allowed})
         ok = must_pass_call(b, set(base) | (ops - {path})) and not extra
+        # `*self = mem::take(self) + rhs`: the operand is emptied first, a panic in the append (a
+        # refused allocation) leaves it empty
+        moved = [callee_name(t) for _, t in b.calls() if callee_name(t) in ("core::mem::take", "core::mem::replace", "core::mem::swap", "core::ptr::read", "core::ptr::write")]
+        if path.endswith("::add_assign"):
+            moved += ["*self = .." for blk in b.blocks for st in blk["stmts"] if st["k"] == "assign" and st["lhs"]["l"] == 1 and st["lhs"]["p"] == ["deref"]]
+        if moved:
+            ok = False
+            extra = extra + moved
         if ok and path.endswith("::add"):
             sib = tuple(o for o in ops if o != path and o.endswith("::add"))
             ok = all(d == "p1" or d.startswith("mem:") or any(d.startswith(o + "(p1, ") for o in sib) for d in ret_defs(b))
